@@ -230,6 +230,8 @@ pub fn persist_temp_file<P: AsRef<Path>>(
     temp_file: NamedTempFile,
     new_path: P,
 ) -> io::Result<File> {
+    #[cfg(jj_vcs_jj_verif)]
+    crate::verif::point("durable", &new_path.as_ref().to_string_lossy());
     // Ensure persisted file content is flushed to disk.
     temp_file.as_file().sync_data()?;
     temp_file
@@ -243,6 +245,8 @@ pub fn persist_content_addressed_temp_file<P: AsRef<Path>>(
     temp_file: NamedTempFile,
     new_path: P,
 ) -> io::Result<File> {
+    #[cfg(jj_vcs_jj_verif)]
+    crate::verif::point("durable", &new_path.as_ref().to_string_lossy());
     // Ensure new file content is flushed to disk, so the old file content
     // wouldn't be lost if existed at the same location.
     temp_file.as_file().sync_data()?;
